@@ -123,6 +123,29 @@ def outInfo (outChunks : List (List Nat)) (blockId : List Nat) : Option (Info ×
   pure ({ shape := outChunks.map List.sum, numChunks := outChunks.map List.length, arrayLocation := al,
           chunkLocation := blockId }, cs)
 
+/-! ### `blockwise(align_arrays=False)`: which input's chunks an output index gets -/
+
+def lookupC (m : List (Sym × List Nat)) (s : Sym) : Option (List Nat) :=
+  match m with
+  | [] => none
+  | (k, v) :: r => if k = s then some v else lookupC r s
+
+def setC (m : List (Sym × List Nat)) (s : Sym) (v : List Nat) : List (Sym × List Nat) :=
+  match m with
+  | [] => [(s, v)]
+  | (k, w) :: r => if k = s then (s, v) :: r else (k, w) :: setC r s v
+
+/-- one `(c, i)` of `for c, i in zip(arg.chunks, ind)`:
+    `if i not in chunkss or len(c) > len(chunkss[i]) or chunkss[i] == (1,): chunkss[i] = c` (0254c84) -/
+def alignStep (m : List (Sym × List Nat)) (p : Sym × List Nat) : List (Sym × List Nat) :=
+  match lookupC m p.1 with
+  | none => setC m p.1 p.2
+  | some cur => if p.2.length > cur.length || cur == [1] then setC m p.1 p.2 else m
+
+/-- `chunkss` of `blockwise(..., align_arrays=False)` for the indexed array arguments -/
+def alignFalseChunks (args : List AArg) : List (Sym × List Nat) :=
+  (args.flatMap fun a => a.ind.zip a.chunks).foldl alignStep []
+
 /-! ### apply_gufunc: loop dimensions -/
 
 /-- `tuple(f"__loopdim{d}__" for d in range(max_loopdims - n, max_loopdims))` (the symbol is the number `d`) -/
